@@ -1179,14 +1179,17 @@ div_signed_int(Type& to, const Type x, const Type y, Rounding_Dir dir) {
     return V_EQ;
   }
   Type m = x % y;
-  if (m < 0) {
+  if (m == 0) {
+    return V_EQ;
+  }
+  // The quotient was truncated toward zero: the exact result is smaller
+  // than `to' if it is negative, i.e., if `m' (which has the sign of `x')
+  // and `y' have different signs; it is greater than `to' otherwise.
+  if ((m < 0) != (y < 0)) {
     return round_lt_int_no_overflow<To_Policy>(to, dir);
   }
-  else if (m > 0) {
-    return round_gt_int_no_overflow<To_Policy>(to, dir);
-  }
   else {
-    return V_EQ;
+    return round_gt_int_no_overflow<To_Policy>(to, dir);
   }
 }
 
